@@ -34,3 +34,10 @@ Definition probe_none_member_fixed : bool :=
           (mkOpts false false false None None [] None 0%Z false true false)
           (VAtom (AEnum (s2p "E4") (s2p "N") 0 ENone)) (VAtom ANone) with
   | YEmpty => true | _ => false end.
+
+(* does the diff-side model follow the /repo fix 1c8f0f8 - truncate_datetime leaves a date alone (no TypeError)? *)
+Definition probe_trunc_date_fixed : bool :=
+  match ydiff_verdict (fun _ _ => []) (mkCfg false 33 100 true)
+          (mkOpts false false false None None [] (Some UHour) 0%Z false false false)
+          (VAtom (ADate 2024 1 1)) (VAtom (ADate 2024 1 1)) with
+  | YEmpty => true | _ => false end.
